@@ -1,10 +1,36 @@
 use crate::common::*;
 
-#[derive(Deserialize, Serialize, Debug, Eq, PartialEq, Copy, Clone)]
+#[derive(Serialize, Debug, Eq, PartialEq, Copy, Clone)]
 #[serde(transparent)]
 pub(crate) struct Md5Digest {
-  #[serde(with = "SerHex::<serde_hex::Strict>")]
+  #[serde(serialize_with = "SerHex::<serde_hex::Strict>::serialize")]
   bytes: [u8; 16],
+}
+
+impl<'de> Deserialize<'de> for Md5Digest {
+  fn deserialize<D>(deserializer: D) -> Result<Self, D::Error>
+  where
+    D: Deserializer<'de>,
+  {
+    // `serde-hex` panics on input that is too short, so check the length and
+    // decode the digits here.
+    let text = String::deserialize(deserializer)?;
+
+    let mut bytes = [0u8; 16];
+
+    if text.len() != bytes.len() * 2 {
+      return Err(D::Error::custom(format!(
+        "MD5 digest has {} characters, expected {}",
+        text.len(),
+        bytes.len() * 2
+      )));
+    }
+
+    hex::decode_to_slice(&text, &mut bytes)
+      .map_err(|error| D::Error::custom(format!("Invalid MD5 digest: {error}")))?;
+
+    Ok(Self { bytes })
+  }
 }
 
 impl Md5Digest {
